@@ -120,6 +120,13 @@ CHECKS = {
                      "for all child lengths x delays x slices",
                 note="states = scheduler turns of the real start loop; time virtual; `runnable throughout` is read off the trace (context alive before and after the interval)",
                 technique="exhaustive enumeration of small schedules (script sets x slice sizes x clock ticks) with trace invariants on the real scheduler"),
+    "C18": dict(level="model_checking", ref="3/C18",
+                text="all histories of <=2/3 API calls over 20 call kinds (succeeding, failing in each phase, erroring mid/last, late loggers, non-terminating "
+                     "under a 50 ms virtual limit, every type character, malformed text, config loads) with a status probe after each, plus creation "
+                     "variants, invalid handles, two-instance interleavings and aged instances, against the real exported C functions in forked ASan "
+                     "children; every call judged on its own: documented code, status 0, callback user/call data, persisted globals/config only",
+                note="trusted: table of documented codes per call kind; clock virtual; a dangling (destroyed) handle is the caller's use-after-free and is represented by NULL",
+                technique="explicit-state exploration of API call histories on the real library with per-call reference verdicts"),
 }
 
 PENDING_REASON = "check not built yet in this round (planned, see DESIGN.md section 3)"
